@@ -58,9 +58,16 @@ def tokfloat(x):
             return -REG[t[1:]] if t[0] == '-' else REG[t[1:]]
         if t and set(t) <= _NUMERAL_OK:
             try:
-                return SymReal(Fraction(t))
+                fr = Fraction(t)
             except (ValueError, ZeroDivisionError):
-                pass
+                fr = None
+            if fr is not None:
+                digits = sum(ch.isdigit() for ch in t.lower().split('e')[0].lstrip('+-0.'))
+                if digits >= 15:
+                    # a 15+ digit decimal is the printed form of a float: it stands for the simple
+                    # rational it approximates (reals for floats), e.g. 0.6666666666666666 -> 2/3
+                    fr = symx.simplest_fraction(fr, rel=Fraction(1, 10 ** 14))
+                return SymReal(fr)
         return SymReal(builtins.float(t))      # raises ValueError like the real code
     if isinstance(x, (int, builtins.float, Fraction)):
         return SymReal(x)
